@@ -384,6 +384,14 @@ class Prop(SeqProp):
         def battery():
             """the inherited (mixin) interface beside the builtin container with the same content"""
             probes = [POOL[brng.randrange(len(POOL))] for _ in range(3)] + list(shadow)[:2]
+            # the same numbers as other numeric types (equal and hash-equal to the int / float that is stored)
+            import fractions
+            import decimal
+            for x_ in list(shadow)[:2] + probes[:1]:
+                if isinstance(x_, (int, float)) and not isinstance(x_, bool) and x_ == x_ and abs(x_) < 2 ** 60:
+                    probes.append(fractions.Fraction(x_))
+                    if float(x_).is_integer():
+                        probes.append(decimal.Decimal(int(x_)))
             if kind == "sset":
                 others = [set(list(shadow)[:2]) | {POOL[brng.randrange(len(POOL))]}, set(shadow), set()]
                 return mixins.set_battery(obj, shadow, probes, ordered=sorted(shadow), others=others)
